@@ -36,7 +36,24 @@ class Loop:
 
 
 def input_loops(fn):
-    return [Loop(fn, c) for c in PR.calls_matching(fn, ANY_INPUT_NEXT)]
+    """loops advancing an input iterator: the known iterator types, or any adapter (Map, Enumerate, ...) whose type contains io::Lines"""
+    res = []
+    for c in fn.calls:
+        sn = short(c.name)
+        if re.search(ANY_INPUT_NEXT, sn):
+            res.append(Loop(fn, c))
+        elif sn.endswith("as core::iter::traits::iterator::Iterator>::next") and \
+                any("std::io::Lines<" in t or "FollowFileIterator" in t for t in (c.func.get("res_targs") or c.targs)):
+            res.append(Loop(fn, c))
+    return res
+
+
+def is_line_loop(loop):
+    sn = short(loop.next.name)
+    if re.search(LINES_NEXT + "|" + FOLLOW_NEXT, sn):
+        return True
+    return any("std::io::Lines<" in t or "FollowFileIterator" in t for t in (loop.next.func.get("res_targs") or loop.next.targs)) and \
+        not re.search(READERS_NEXT, sn)
 
 
 def running_load(fn, loop):
@@ -49,4 +66,4 @@ def running_load(fn, loop):
 
 
 def consuming_calls(fn):
-    return PR.calls_matching(fn, ANY_INPUT_NEXT)
+    return [l.next for l in input_loops(fn)]
